@@ -99,6 +99,10 @@ class GenBinding:
                 [{"op": "remove_arm", "arm": first}] + q,
                 [{"op": "fit", "rows": [2, 2]}] + q + [{"op": "warm_start", "q": [1, 1]}] + q]
 
+    def independent_arms(self):
+        """One self-contained model per arm, deterministic expectations."""
+        return self.np is None and (self.lp in ("lin-ucb",) or (self.lp in ("eg", "lin-greedy") and self.epsilon == 0))
+
     def skip(self):
         return ("arm_to_expectation",) if self.lp == "ts" and self.np is None else ()
 
